@@ -238,3 +238,94 @@ LEMMAS = [L.SmtLemma("trapezoid-sum-equals-piecewise-linear-integral", _trapezoi
           L.SmtLemma("modified-basis-end-weights-integrate-linear-extrapolation", _modified_end_lemma)]
 ASSUMPTIONS = ["machine floats treated as reals (A-REAL)", "np.zeros(n) is an array of n zeros; a[i] += v updates exactly index i (prelude)",
                "GlobalSimpson/HighOrder/Lagrange/BSpline global rules: layer B only"]
+
+
+# --------------------------------------------------------------------------- GlobalGrid.set_grid: the tensor structure around the 1-D rule (1-2 dimensions)
+class Quad1D(Contract):
+    """caller-side form of compute_1D_quad_weights: one weight per point of the 1-D grid handed in (the values are what the contracts above are about)"""
+    file, qualname = FILE, "GlobalGrid.compute_1D_quad_weights"
+    trusted = True
+    note = "abstract method of the global grid families (GlobalTrapezoidalGrid: compute_weights above): returns one weight per point"
+
+    def inputs(self, S):
+        return {"self": Obj("GlobalTrapezoidalGrid", {}), "grid_1D": S.seq("g1", S.int("g1.len"), R, kind="array"), "a": S.real("qa"), "b": S.real("qb"), "d": S.int("qd"), "grid_levels_1D": None}
+
+    def result(self, S, env):
+        g = env["grid_1D"]
+        w = S.seq("quad_weights", g.len(), R, kind="array")
+        S.ex.ghost.setdefault("quad", []).append((env["d"], g, w))
+        return w
+
+
+class SetGrid(Contract):
+    """GlobalGrid.set_grid (1-2 dimensions, any number of points per dimension): per dimension the grid keeps the handed-in points with the weights computed for
+    exactly these points, one weight and one level per kept point; without boundary points exactly the first and the last point (with their weights and levels) are dropped"""
+    file, qualname = FILE, "GlobalGrid.set_grid"
+
+    def __init__(self, ndim, boundary):
+        self.ndim, self.boundary = ndim, boundary
+        self.label = "GlobalGrid.set_grid[dims=%d, boundary %s]" % (ndim, "on" if boundary else "off")
+
+    def applies(self, receiver, args):
+        return False
+
+    def inputs(self, S):
+        nd = self.ndim
+        pts, lvs = [], []
+        for d in range(nd):
+            n = S.int("n%d" % d)
+            pts.append(S.seq("points%d" % d, n, R, kind="array"))
+            lvs.append(S.seq("levels%d" % d, n, I, kind="array"))
+        return {"self": Obj("GlobalTrapezoidalGrid", dict(dim=nd, boundary=self.boundary, a=Seq("array", [S.real("a%d" % d) for d in range(nd)]), b=Seq("array", [S.real("b%d" % d) for d in range(nd)]),
+                                                          modified_basis=S.bool("modified_basis"))),
+                "grid_points": Seq("list", pts), "grid_levels": Seq("list", lvs)}
+
+    def pre(self, S, env):
+        out = []
+        for d in range(self.ndim):
+            n = env["grid_points"].items[d].len()
+            out.append(("enough-points-%d" % d, n >= (1 if self.boundary else 2)))
+            i = z3.Int("srt%d" % d)
+            x = env["grid_points"].items[d].arr
+            out.append(("sorted-%d" % d, z3.ForAll([i], z3.Implies(z3.And(i >= 0, i < n - 1), z3.Select(x, i) <= z3.Select(x, i + 1)), patterns=[z3.Select(x, i)])))
+        return out
+
+    def post(self, S, old, env, result):
+        f = env["self"].fields
+        need = ("coordinate_array", "weights", "levels", "numPoints", "numPointsWithBoundary")
+        ok = all(isinstance(f.get(k), Seq) and f[k].concrete and len(f[k].items) == self.ndim for k in need)
+        if not ok:
+            return [Cl("keeps-points-weights-levels-and-counts-per-dimension", False, prop=True)]
+        quad = S.ex.ghost.get("quad", [])
+        out = [Cl("keeps-points-weights-levels-and-counts-per-dimension", True, prop=True),
+               Cl("one-weight-computation-per-dimension", len(quad) == self.ndim and all(isinstance(q[0], int) and q[0] == d for d, q in enumerate(quad)), prop=True)]
+        if len(quad) != self.ndim:
+            return out
+        i = z3.Int("gi")
+        off = 0 if self.boundary else 1
+        for d in range(self.ndim):
+            p0, l0 = old["grid_points"].items[d], old["grid_levels"].items[d]
+            n0 = V(p0.len())
+            kept = n0 if self.boundary else n0 - 2
+            _, g_in, w_all = quad[d]
+            vals = [f[k].items[d] for k in ("coordinate_array", "weights", "levels")]
+            if not all(isinstance(v, Seq) for v in vals):
+                out.append(Cl("dimension-%d-holds-sequences" % d, False, prop=True))
+                continue
+            c, w, l = [v.to_symbolic() for v in vals]
+            rng = z3.And(i >= 0, i < kept)
+            out += [Cl("weights-are-computed-for-exactly-the-handed-in-points[dim %d]" % d, z3.And(V(g_in.len()) == n0, z3.ForAll([i], z3.Implies(z3.And(i >= 0, i < n0), z3.Select(g_in.to_symbolic().arr, i) == z3.Select(p0.arr, i)))), prop=True),
+                    Cl("as-many-points-weights-and-levels-as-reported[dim %d]" % d, z3.And(V(c.len()) == kept, V(w.len()) == kept, V(l.len()) == kept, V(f["numPoints"].items[d]) == kept,
+                                                                                              V(f["numPointsWithBoundary"].items[d]) == n0), prop=True),
+                    Cl("kept-points-are-the-handed-in-points%s[dim %d]" % ("" if self.boundary else "-without-the-two-boundary-points", d),
+                       z3.ForAll([i], z3.Implies(rng, z3.Select(c.arr, i) == z3.Select(p0.arr, i + off))), prop=True),
+                    Cl("each-kept-point-keeps-its-own-weight-and-level[dim %d]" % d,
+                       z3.ForAll([i], z3.Implies(rng, z3.And(z3.Select(w.arr, i) == z3.Select(w_all.arr, i + off), z3.Select(l.arr, i) == z3.Select(l0.arr, i + off)))), prop=True)]
+        return out
+
+    def model_to_input(self, model):
+        return {"kind": "C09.set_grid", "ndim": self.ndim, "boundary": self.boundary}
+
+
+CONTRACTS += [Quad1D()] + [SetGrid(nd, bd) for nd in (1, 2) for bd in (True, False)]
+ASSUMPTIONS += ["GlobalGrid.set_grid: 1-2 dimensions (loops over the dimensions unrolled), any number of points per dimension; compute_1D_quad_weights abstract (one weight per point)"]
